@@ -92,6 +92,15 @@ def run(rep, tier, seed):
         else:
             s = randbits(rnd, rnd.randint(0, 30))
         one(b, ids, s, rnd.choice([L, R]), 'random')
+    # rule ids longer than a machine word / than 32 bits (a context may use any id length)
+    for _ in range(100 if tier == 'quick' else 1000):
+        n = rnd.randint(2, 5)
+        head = randbits(rnd, rnd.choice([24, 31, 32, 33, 40]))
+        ids = [head + x for x in prefix_free_ids(rnd, n, maxlen=9)]
+        rnd.shuffle(ids)
+        i = rnd.choice(ids)
+        s = rnd.choice([i + randbits(rnd, rnd.choice([0, 1, 9])), i[:rnd.randint(0, len(i))], head + randbits(rnd, rnd.randint(0, 9))])
+        one(b, ids, s, rnd.choice([L, R]), 'long-ids')
     # one long-lived Ruler answering a sequence of lookups: hits, then shorter / truncated / unknown strings sharing leading bits
     # (ids longer than one byte sharing their first byte; rules of fragmentation nature present in the set)
     from microschc.rfc8724 import RuleNature
